@@ -248,11 +248,18 @@ def run_property(mod, tier="quick", replay_path=None):
         fname = re.sub(r"[^A-Za-z0-9_.#:-]", "_", o["name"])[:150] + ".json"
         path = os.path.join(VERIF, "replays", pid, fname)
         verdict = {"verdict": "not-run"}
-        if (c is not None or custom) and o.get("backend") != "ghost-static" or custom:
+        objstate = c is not None and any("obj(" in str(t) for t in c.params.values()) and not custom
+        if objstate:
+            # counter-model over abstract object state (cache slots, history): not directly executable; the bounded
+            # stand-ins of the property (operation sequences on real grids) look for a concrete failing history
+            verdict = {"verdict": "not-reproduced", "reason": "abstract object-state counter-model; see the model and the stand-in results"}
+            with open(path, "w") as f:
+                json.dump(rp, f, indent=1, default=str)
+        elif (c is not None or custom) and o.get("backend") != "ghost-static" or custom:
             with open(path, "w") as f:
                 json.dump(rp, f, indent=1, default=str)
             verdict = run_py("replay.py", rp)
-        if verdict.get("verdict") != "reproduced" and c is not None and not custom and getattr(mod, "STANDIN_SEARCH", True):
+        if verdict.get("verdict") != "reproduced" and c is not None and not custom and not objstate and getattr(mod, "STANDIN_SEARCH", True):
             sr = run_py("standin.py", standin_spec(c, q, 1500, seed))
             if sr.get("failures"):
                 verdict = {"verdict": "reproduced", "by": "bounded stand-in search", "failure": sr["failures"][0]}
